@@ -68,6 +68,13 @@ type Opts struct {
 	// TailTicks: the responder keeps ticking for this many cycles after its
 	// last activity (GPU-side components winding down after a command).
 	TailTicks int
+	// GPUs > 1: further responders are registered as GPU 2..n (buffers and
+	// kernels stay on GPU 1; the others only see the flush requests the driver
+	// sends to every GPU). FarFlushLatency is their flush latency: with a value
+	// above RspLatency the last flush acknowledgement of a copy arrives AFTER
+	// the copy's data, so the command completes in the flush-return path.
+	GPUs            int
+	FarFlushLatency int
 }
 
 // CmdEvent is one driver-command trace event.
@@ -85,6 +92,7 @@ type World struct {
 	Engine  *sim.SerialEngine
 	Driver  *driver.Driver
 	GPU     *Responder
+	Far     []*Responder
 	Storage *mem.Storage
 	PT      vm.PageTable
 	Conn    *directconnection.Comp
@@ -145,6 +153,12 @@ func NewWorld(rt RT, o Opts) *World {
 	w.Conn = directconnection.MakeBuilder().WithEngine(w.Engine).WithFreq(1 * sim.GHz).Build("Conn")
 	w.Conn.PlugIn(w.Driver.GetPortByName("GPU"))
 	w.Conn.PlugIn(w.GPU.port)
+	for g := 2; g <= o.GPUs; g++ {
+		f := newNamedResponder(w, fmt.Sprintf("GPU%d", g), o.FarFlushLatency)
+		w.Driver.RegisterGPU(f.port, driver.DeviceProperties{CUCount: 4, DRAMSize: 128 * mem.MB})
+		w.Conn.PlugIn(f.port)
+		w.Far = append(w.Far, f)
+	}
 	rt.OnDeadlock(w.classifyDeadlock)
 	w.Driver.Run()
 	return w
@@ -393,10 +407,12 @@ type Responder struct {
 	Seen []string
 }
 
-func newResponder(w *World, lat int) *Responder {
+func newResponder(w *World, lat int) *Responder { return newNamedResponder(w, "GPU", lat) }
+
+func newNamedResponder(w *World, name string, lat int) *Responder {
 	r := &Responder{w: w, lat: lat, tail: w.Opts.TailTicks, idle: 1 << 30}
-	r.TickingComponent = sim.NewTickingComponent("GPU", w.Engine, 1*sim.GHz, r)
-	r.port = sim.NewPort(r, 8, 8, "GPU.ToDriver")
+	r.TickingComponent = sim.NewTickingComponent(name, w.Engine, 1*sim.GHz, r)
+	r.port = sim.NewPort(r, 8, 8, name+".ToDriver")
 	r.AddPort("ToDriver", r.port)
 	return r
 }
